@@ -1,7 +1,7 @@
 (* C10 property theorems: statements only (proofs: C10/Energy.v, C10/Network.v, C10/Proofs.v).
    K is an ARBITRARY commutative ring with an involution `conj` (Z, Z[i], Q, Q[i], R, C ...). *)
 From Coq Require Import ZArith Arith List Bool Ring Lia.
-From QV Require Import Base.Sums Base.TN Base.TNExec C10.Model C10.Energy C10.Network C10.Proofs.
+From QV Require Import Base.Sums Base.TN Base.TNExec C10.Model C10.Energy C10.Network C10.Proofs C10.Schedule.
 Import ListNotations.
 
 Section C10.
@@ -203,6 +203,76 @@ Theorem C10_split_renorm_only_for_sum2 : forall m,
   (keeps_frobenius_norm m = true <-> (m = CSum2 \/ m = CRsum2)) /\ dmrg2_normalised_after_truncation m = true.
 Proof. exact split_renorm_table. Qed.
 Print Assumptions C10_split_renorm_only_for_sum2.
+
+(* ---- the schedules over the whole life of a DMRG object (any history of solve() calls) ------------------------
+   Model.dmrg_history is the iterator machine of the code (chain(bds, repeat(bds[-1])) per schedule, replaced by a
+   solve(bond_dims= / cutoffs=) argument, continued otherwise, one entry of each per sweep performed); it is
+   compared with the arguments every sweep of real and scripted runs receives.  Closed form: sweep i after the
+   sequence in force was set gets its entry i, the FINAL entry once the sequence is exhausted. *)
+Theorem C10_schedule_iterator_closed_form : forall bds cuts h,
+  bds <> [] -> cuts <> [] -> Forall ok_call h ->
+  dmrg_history bds cuts h = Some (history_spec (bds, 0) (cuts, 0) h).
+Proof. exact dmrg_history_closed_form. Qed.
+Print Assumptions C10_schedule_iterator_closed_form.
+
+(* an empty schedule is refused, in the constructor and in any later call *)
+Theorem C10_empty_schedule_rejected : forall bds cuts pre ob oc n post,
+  ob = Some [] \/ oc = Some [] -> Forall ok_call pre ->
+  dmrg_history bds cuts (pre ++ (ob, oc, n) :: post) = None.
+Proof. exact dmrg_history_rejects_empty. Qed.
+Print Assumptions C10_empty_schedule_rejected.
+
+(* sweep i of the last call of ANY history: entry (consumed + i) of the sequence in force - this call's argument
+   when given (consumed = 0), else whatever the earlier calls left (sequence and position) *)
+Theorem C10_last_call_caps : forall pre sb sc ob oc n i, i < n ->
+  nth i (last (history_spec sb sc (pre ++ [(ob, oc, n)])) []) (0, 0)
+  = (sched (fst (enter (bstate_after sb pre) ob)) (snd (enter (bstate_after sb pre) ob) + i),
+     sched (fst (enter (cstate_after sc pre) oc)) (snd (enter (cstate_after sc pre) oc) + i)).
+Proof. exact last_call_caps. Qed.
+Print Assumptions C10_last_call_caps.
+
+(* a call that sets bond_dims = b and sweeps beyond the end of b runs those sweeps with the final entry of b *)
+Theorem C10_exhausted_schedule_holds_final_entry : forall pre sb sc b oc n i, i < n -> length b <= i ->
+  fst (nth i (last (history_spec sb sc (pre ++ [(Some b, oc, n)])) []) (0, 0)) = last b 0.
+Proof. exact exhausted_schedule_holds_final_entry. Qed.
+Print Assumptions C10_exhausted_schedule_holds_final_entry.
+
+Theorem C10_exhausted_cutoffs_hold_final_entry : forall pre sb sc ob c n i, i < n -> length c <= i ->
+  snd (nth i (last (history_spec sb sc (pre ++ [(ob, Some c, n)])) []) (0, 0)) = last c 0.
+Proof. exact exhausted_cutoffs_hold_final_entry. Qed.
+Print Assumptions C10_exhausted_cutoffs_hold_final_entry.
+
+(* the two iterators are independent: cutoffs= arguments never move the bond-dimension schedule *)
+Theorem C10_bond_schedule_independent_of_cutoff_arguments : forall h sb sc sc',
+  map (map fst) (history_spec sb sc h)
+  = map (map fst) (history_spec sb sc' (map (fun c : call => (fst (fst c), None, snd c)) h)).
+Proof. exact bond_schedule_independent_of_cutoff_arguments. Qed.
+Print Assumptions C10_bond_schedule_independent_of_cutoff_arguments.
+
+(* The state after ANY history of solve() calls on a 2-site DMRG (any directions, canonize flags, ranks found by the
+   splits, initial bonds): every bond <= the cap the schedule in force assigns to the last sweep performed. *)
+Theorem C10_history2_bond_cap : forall d sb sc pre ob oc n (sws : list (bool * bool * list nat)) bonds,
+  length sws = length (concat (history_spec sb sc (pre ++ [(ob, oc, S n)]))) ->
+  (forall x, In x sws -> length bonds <= length (snd x)) ->
+  let s := enter (bstate_after sb pre) ob in
+  Forall (fun b => b <= sched (fst s) (snd s + n))
+         (sweeps2 d (combine (map fst (concat (history_spec sb sc (pre ++ [(ob, oc, S n)])))) sws) bonds).
+Proof. exact history2_bond_cap. Qed.
+Print Assumptions C10_history2_bond_cap.
+
+(* the sweep loop of solve(): at most max_sweeps sweeps, at least one, all of them when tol <= 0 *)
+Theorem C10_sweeps_done_bounds : forall ms tol es script,
+  sweeps_done ms tol es script <= ms /\ sweeps_done ms tol es script <= length script /\
+  (1 <= ms -> 1 <= length script -> 1 <= sweeps_done ms tol es script) /\
+  ((tol <= 0)%Z -> sweeps_done ms tol es script = Nat.min ms (length script)).
+Proof. exact sweeps_done_bounds. Qed.
+Print Assumptions C10_sweeps_done_bounds.
+
+(* non-vacuity of the schedule machine: a decreasing schedule ends BELOW its maximum, a later call restarts *)
+Example C10_schedule_example :
+  dmrg_history [16; 6] [12] [(None, None, 4); (Some [12; 8; 4], None, 5); (None, Some [6; 10], 2)]
+  = Some [[(16, 12); (6, 12); (6, 12); (6, 12)]; [(12, 12); (8, 12); (4, 12); (4, 12); (4, 12)]; [(4, 6); (4, 10)]].
+Proof. vm_compute. reflexivity. Qed.
 
 (* non-vacuity: sigma_y + 1 = B^dagger B with B = (1, -i); psi = (1, i) has <H> = 2 >= -1 * 2,
    the conjugate state (what the DMRG stack evaluates) sits exactly on the bound *)
